@@ -3154,7 +3154,7 @@ class Scene:
         if filename is not None:
 
             # Check extension
-            if ".csv" not in filename:
+            if not filename.endswith(".csv"):
                 raise IOError("Export file for Scene.distributions() must be .csv.")
 
             # Set up (name columns wide enough for the longest name)
@@ -3406,7 +3406,7 @@ class Scene:
 
         # Check for .stl file
         filename = kwargs.get("filename")
-        if ".stl" not in filename:
+        if not filename.endswith(".stl"):
             raise IOError("{0} is not a .stl file.".format(filename))
 
         # Multiple aircraft
